@@ -19,7 +19,7 @@ _K3_NOTE = ("Trusted: the rxvc VC generator; z3/cvc5; A-gil (a single attribute 
 _K3_TECH = "K3 monitor invariant + rely/guarantee interference + ghost token accounting, per critical section, SMT-discharged"
 
 _K2_NOTE = ("Trusted: the rxvc VC generator; z3/cvc5; the spec machines in /verif/specs/c20.py are the specification (state + who "
-            "receives what on each call, taken from the property statement); A-exc (an exception instance is truthy and not None). "
+            "receives what on each call, taken from the property statement); A-exc (an exception instance is not None; its truth value is arbitrary - a class may define __bool__ / __len__). "
             "Sequential histories (the property quantifies histories, not threads); re-entrancy from callbacks is covered by the "
             "call-out discipline: the coupling invariant is proved at every call-out, call-outs may raise, and loops that call out "
             "must iterate a snapshot. Subscribers are opaque objects here; that each of them is silenced after unsubscribing is the "
@@ -241,7 +241,7 @@ CHECKS_K1 = {
                 "current-thread trampoline); iterables of sources follow the iterator protocol over an arbitrary sequence; each source "
                 "is opaque and obeys the notification grammar (one terminal), which is what makes 'one tick per continuing terminal' "
                 "mean 'one source at a time'; SerialDisposable / SingleAssignmentDisposable run for real (C26); A-exc (an exception "
-                "instance is truthy: catch tests `if last_exception`); itertools.takewhile and generator expressions over range / "
+                "instance is not None, its truth value is arbitrary - which found catch's `if last_exception:`, fixed); itertools.takewhile and generator expressions over range / "
                 "infinite() are trusted library semantics (the obligation is what is handed to them). Not under contract: the handler "
                 "form of catch (catch_handler - its own subscribe logic), callables and futures among on_error_resume_next's sources, "
                 "for_in (concat of map). Replay and thorough cross-check: seqrun.py (scripted cold sources, subscription order log, "
@@ -658,7 +658,9 @@ CHECKS = {
                 "overwritten item is an action that already ran. `X.connect(...)` - the shared connection of a multicast - is C24's "
                 "business and not a resource here (auto_connect stays connected by design). Outside subscribe functions and therefore "
                 "outside this contract: ConnectableObservable.connect, hot marbles, to_async, to_future (C41). The induction over the "
-                "pipeline depth and the appeal to C26 are argued in DESIGN.md, not machine-checked as one theorem. Thorough tier: "
+                "pipeline depth is a K8 composition lemma (compose.py: base and step discharged over uninterpreted predicates whose "
+                "hypotheses are exactly the clauses of the ownership, container and AutoDetachObserver contracts; each hypothesis is "
+                "shown necessary by a must-fail run; the induction schema itself is applied by the generator). Thorough tier: "
                 "must-fail mutants of the ownership analysis and a native cross-check (ownrun.py: 70 pipeline shapes over logging cold "
                 "sources x termination patterns x every dispose time) whose disagreement with a passing analysis is a checker crash.",
         "technique": "K5 ownership contracts by least-fixpoint analysis on the real AST + K2 class refinement (AutoDetachObserver) + contract of Observable.subscribe; native TestScheduler replay",
